@@ -73,6 +73,19 @@ pub fn check_phrase(ls: &LangSet, code: &str, phrase: &str) -> (bool, Option<Str
     (true, None)
 }
 
+fn big_scales(code: &str) -> &'static [&'static str] {
+    match code {
+        "en" => &["billion", "billions", "million", "thousand"],
+        "fr" => &["milliard", "milliards", "million", "mille"],
+        "es" => &["millones", "millón", "mil"],
+        "pt" => &["bilhões", "bilhão", "biliões", "milhões", "mil"],
+        "it" => &["bilioni", "bilione", "miliardi", "miliardo", "milioni"],
+        "de" => &["billion", "milliarden", "milliarde", "millionen", "tausend"],
+        "nl" => &["biljoen", "miljard", "miljoen", "duizend"],
+        _ => &[],
+    }
+}
+
 fn mutate_phrase(rng: &mut Rng, phrase: &str, vocab: &[String]) -> String {
     let mut ws: Vec<String> = phrase.split(' ').map(|s| s.to_string()).collect();
     match rng.below(5) {
@@ -137,7 +150,26 @@ pub fn run(ctx: &Ctx) -> Outcome {
             }
             let code = LANGS[(i % 7) as usize];
             let lex = ls.lexicon(code);
-            let phrase = match rng.below(4) {
+            let phrase = match rng.below(5) {
+                4 => {
+                    // very large numbers: small group, the largest scale words (possibly stacked), small group
+                    let scales = big_scales(code);
+                    let mut ws: Vec<String> = Vec::new();
+                    if rng.chance(3, 4) {
+                        ws.push(spell::cardinal(code, 1 + rng.below(2000)));
+                    }
+                    ws.push(rng.pick_str(scales).to_string());
+                    if rng.chance(1, 3) {
+                        ws.push(rng.pick_str(scales).to_string());
+                    }
+                    if rng.chance(1, 2) {
+                        ws.push(spell::cardinal(code, rng.below(1000)));
+                    }
+                    if rng.chance(1, 4) {
+                        ws.insert(0, vec![lex.zero; 1 + rng.usize(16)].join(" "));
+                    }
+                    ws.join(" ")
+                }
                 0 => {
                     let n = gen::random_number(&mut rng, 12);
                     let vs = spell::cardinal_variants(code, n);
